@@ -26,5 +26,10 @@ Steps123 == {1, 2, 3}
 Steps01  == {0, 1}
 ShapesB  == {<<2, 2>>, <<3, 1>>}
 ShapesZ  == {<<2, 3>>, <<3, 1>>, <<2, 1, 2>>}
+\* sibling views of one store as source and destination of a whole-array operation (same origin and shape but
+\* different steps, rows against columns, overlapping blocks): needs an extent of 3 in two dimensions
+ShapesSib == {<<5>>, <<3, 3>>}
+\* two consecutive writes through the same view objects (whatever an object remembers from its first use)
+ShapesTwo == {<<4>>, <<2, 2>>, <<2, 3>>}
 AllWrites == {"set", "apply", "applyslice", "copyfrom", "twoarray"}
 =============================================================================
